@@ -86,6 +86,8 @@ def plan(tier, seed):
     shards.append(("sizes", tier, mags[0]))
     for gi in ((3, 12) if tier == "quick" else (3, 12, 21, 30)):
         shards.append(("rgfit", tier, gi))
+    for gi in ((5, 14, 27) if tier == "quick" else (5, 14, 27, 8, 19, 30)):
+        shards.append(("assign_scans", tier, gi))
     k = seed % len(shards)
     return shards[k:] + shards[:k]
 
@@ -532,7 +534,70 @@ def _run_rgfit(desc):
     return sh
 
 
+def _run_assign_scans(desc):
+    """refinegrains.assignlabels with SEVERAL scans loaded on one object and grains that share their position (fresh from the indexer: all
+    at the origin; or one crystal seen in several scans): the g-vectors it stores for every scan (gx, gy, gz columns) are the reference
+    g-vectors of that scan's peaks for the grain each peak is given to"""
+    _, tier, gi = desc
+    import io, contextlib, shutil
+    from ImageD11 import refinegrains, transform as tr, parameters as P
+    from vt.props import c09
+    sh = Shard()
+    pars = c09.geometries("quick")[gi]
+    for tname, tpos in (("all at the origin", np.zeros(3)), ("all at one place off the axis", np.array([120.0, -75.0, 40.0]))):
+        truth = [(u, tpos.copy()) for u, _ in c09.true_grains(2, 0)]
+        peaks = c09.simulate(tr, pars, truth)
+        wd = os.path.join(c09.WORK, "c01_as_%d" % os.getpid())
+        shutil.rmtree(wd, ignore_errors=True)
+        os.makedirs(wd)
+        try:
+            files = []
+            for name, sel in (("a.flt", slice(None)), ("b.flt", slice(1, None, 2)), ("c.flt", slice(0, None, 3))):
+                fn = os.path.join(wd, name)
+                with open(fn, "w") as fh:
+                    fh.write("#  sc  fc  omega  Number_of_pixels  avg_intensity  sum_intensity\n")
+                    for k in range(len(peaks))[sel]:
+                        fh.write("%.4f  %.4f  %.4f  %.0f  %.4f  %.4f\n" % (peaks[k, 0], peaks[k, 1], peaks[k, 2], 10, 100.0, 1000.0))
+                files.append(fn)
+            with contextlib.redirect_stdout(io.StringIO()):
+                o = refinegrains.refinegrains(tolerance=0.05, OmFloat=False)
+                o.parameterobj.set_parameters(dict(pars))
+                for fn in files:
+                    o.loadfiltered(fn)
+                for gidx, (ubi, t) in enumerate(truth):
+                    o.grainnames.append(gidx)
+                    o.ubisread[gidx] = ubi.copy()
+                    o.translationsread[gidx] = t.copy()
+                o.generate_grains()
+                o.assignlabels(quiet=True)
+            det = {k: pars[k] for k in ("distance", "y_center", "z_center", "y_size", "z_size", "tilt_x", "tilt_y", "tilt_z", "o11", "o12", "o21", "o22")}
+            for fn in files:
+                col = o.scandata[fn]
+                case = {"kind": "assign_scans", "geometry": gi, "grains": tname, "scan": os.path.basename(fn)}
+                xyz = tr.compute_xyz_lab(np.array([col.sc, col.fc]), **det)
+                om = np.asarray(col.omega) * pars["omegasign"]
+                tth, eta = tr.compute_tth_eta_from_xyz(xyz, om, t_x=tpos[0], t_y=tpos[1], t_z=tpos[2], wedge=pars["wedge"], chi=pars["chi"])
+                gref = tr.compute_g_vectors(tth, eta, om, pars["wavelength"], wedge=pars["wedge"], chi=pars["chi"])
+                got = np.array([col.gx, col.gy, col.gz])
+                lab = np.asarray(col.labels).astype(int)
+                m = lab >= 0                  # (the columns hold the g-vector for the grain the peak was given to; all grains share one position)
+                if m.sum() < 0.9 * len(lab):
+                    sh.violation("assignlabels[several scans]:peaks-of-the-listed-grains-left-unassigned", case, {"assigned": int(m.sum()), "peaks": len(lab)})
+                elif np.abs(got[:, m] - gref[:, m]).max() > 1e-9:
+                    sh.violation("assignlabels[several scans]:stored-g-vectors-differ-from-the-reference-formulas", case,
+                                 {"max_diff": float(np.abs(got[:, m] - gref[:, m]).max())})
+                sh.evaluations += 1
+                sh.nontrivial += 1
+        finally:
+            shutil.rmtree(wd, ignore_errors=True)
+    sh.outcomes.add(("assign_scans", gi))
+    sh.sample(case, limit=1)
+    return sh
+
+
 def run_shard(desc):
+    if desc[0] == "assign_scans":
+        return _run_assign_scans(desc)
     if desc[0] == "rgfit":
         return _run_rgfit(desc)
     if desc[0] == "sched":
@@ -600,6 +665,10 @@ def replay(case):
             r = _run_hist(("hist", "thorough", case["mag"], c, 8))
             sh.violations += [v for v in r.violations if all(v["case"][k] == case[k] for k in ("config_a", "config_b", "variant", "fast"))]
         return (not sh.violations), {"violations": sh.violations[:3]}
+    if case.get("kind") == "assign_scans":
+        r = _run_assign_scans(("assign_scans", "quick", case["geometry"]))
+        v = [x for x in r.violations if x["case"]["scan"] == case["scan"] and x["case"]["grains"] == case["grains"]]
+        return (not v), {"violations": v[:3]}
     if case.get("kind") == "rgfit":
         r = _run_rgfit(("rgfit", "quick", case["geometry"]))
         v = [x for x in r.violations if x["case"]["varied"] == case["varied"]]
